@@ -215,7 +215,7 @@ theorem genSkipAlts_refines (hs : Sound F g) (hr : Refines g s) (p : Nat) :
         · simp [hs.fail_pos hg hc hst]
         · simp
       unfold genSkipAlts
-      simp only [hg, has, Bool.false_eq_true, ↓reduceIte, hst, hp]
+      simp only [hg, has, Bool.false_eq_true, ↓reduceIte, hst, hp, Bool.false_and]
       exact ih _ h
     · rename_i v p' he
       obtain ⟨r, hg, h1, _, h3, _⟩ := hr.ok (F := F) he
@@ -225,7 +225,19 @@ theorem genSkipAlts_refines (hs : Sound F g) (hr : Refines g s) (p : Nat) :
         unfold genSkipAlts
         simp only [hg, h3, hne, ↓reduceIte, h1]
         cases (flagsOf F x).as <;> simp
-      · simp at h
+      · rename_i hne
+        -- a match that consumed nothing: both the code and the specification move on
+        have hpp : p' = p := by simpa using hne
+        subst hpp
+        unfold genSkipAlts
+        simp only [hg, h3, h1]
+        cases hxa : (flagsOf F x).as
+        · simp only [Bool.false_eq_true, ↓reduceIte, bne_self_eq_false, Bool.and_false]
+          have : (if (flagsOf F x).cps = true then p' else p') = p' := by split <;> rfl
+          rw [this]
+          exact ih _ h
+        · simp only [↓reduceIte, bne_self_eq_false, Bool.false_eq_true]
+          exact ih _ h
 
 theorem genSkipLoop_refines (hs : Sound F g) (hr : Refines g s) (xs : List Expr) :
     ∀ fuel p res, pegSkipLoop s xs fuel p = some res →
